@@ -292,7 +292,34 @@ pub fn run_c03(rep: &Report) -> u64 {
     1000
 }
 
+/// A signer that is, value for value, equal to a counter signature listed in the body's headers (the
+/// same party signs and counter-signs): it is still signed under "Signature", at every index.
+fn signer_equal_to_counter_signature(ex: &Ex) {
+    let mut l = Local::default();
+    let x = sig_reps()[1].clone();
+    let other = sig_reps()[2].clone();
+    let body = RProtected { original: None, header: RHeader { counter_signatures: vec![x.clone()], ..Default::default() } };
+    let un = RHeader { counter_signatures: vec![x.clone(), other.clone()], ..Default::default() };
+    for (k, sigs) in [vec![x.clone()], vec![other.clone(), x.clone()], vec![x.clone(), other.clone(), x.clone()]].into_iter().enumerate() {
+        for payload in [Some(b"payload".to_vec()), None] {
+            let case = format!("signer == counter signature, list {} payload {:?}", k, payload.as_ref().map(|p| p.len()));
+            if let Ok(only) = std::env::var("VERIF_ONLY_CASE") {
+                if only != case {
+                    continue;
+                }
+            }
+            l.state(1);
+            l.nontrivial(&case);
+            let cx = Cx { pid: ex.pid, space: "c03.signer_is_countersigner", case: &case, exact: true, fams: "S", slots_only: false, body_override: None };
+            let m = subject::c_sign(&RSign { protected: body.clone(), unprotected: un.clone(), payload: payload.clone(), signatures: sigs.clone() }).unwrap();
+            crypto::sign(&cx, &m, &[b"", b"aad"], &[b"detached"], &mut l);
+        }
+    }
+    ex.rep.merge(l);
+}
+
 pub fn explore_c03(ex: &Ex) {
+    signer_equal_to_counter_signature(ex);
     let mut pal = prot_palette();
     let base = pal.len();
     pal.extend(alg_forms());
